@@ -17,6 +17,7 @@ CONSTANTS
   MinParen = FALSE
   TwoPhase = FALSE
   Rnd = FALSE
+  PtrLv = FALSE
 INIT Init
 NEXT Next
 INVARIANT EmitInv
